@@ -5,6 +5,12 @@ Executable model of `MemStorageCore` / `impl Storage for MemStorage` (src/storag
 
 Results: `Res α` distinguishes the three outcomes the Rust code has — `Ok`, `Err(StorageError)`,
 and a panic (`panic!`, `assert!`, slice/index out of bounds, u64 underflow in a debug build).
+
+Checked line by line against src/storage.rs (C19).  Not modelled: the `RwLock` (single-threaded use;
+a panic while the write lock is held poisons it, which is why a sequence ends at the first panic),
+and `get_entries_context` (storage.rs:177, written at :465 when `entries` answers
+`LogTemporarilyUnavailable`, only read back by `take_get_entries_context`; no query depends on it).
+`snapshot_metadata.conf_state` is stored (storage.rs:250) but never read by any method.
 -/
 namespace RaftModel
 
@@ -17,7 +23,7 @@ inductive Res (α : Type) where
   | ok (a : α)
   | err (e : StorageError)
   | panic (site : String)
-  deriving Repr
+  deriving Repr, DecidableEq
 
 structure MemStorage where
   hardState : HardState := {}
@@ -30,24 +36,32 @@ structure MemStorage where
 
 namespace MemStorage
 
+/-- `MemStorage::new` / `MemStorageCore::default` (storage.rs:164, 386) -/
+def new : MemStorage := {}
+
+/-- `MemStorageCore::first_index` (storage.rs:223-228) -/
 def firstIndex (s : MemStorage) : Nat :=
   match s.entries.head? with
   | some e => e.index
   | none => s.snapshotMetadata.index + 1
 
+/-- `MemStorageCore::last_index` (storage.rs:230-235) -/
 def lastIndex (s : MemStorage) : Nat :=
   match s.entries.getLast? with
   | some e => e.index
   | none => s.snapshotMetadata.index
 
+/-- `MemStorageCore::has_entry_at` (storage.rs:219-221) -/
 def hasEntryAt (s : MemStorage) (index : Nat) : Bool :=
   !s.entries.isEmpty && decide (s.firstIndex ≤ index) && decide (index ≤ s.lastIndex)
 
+/-- `MemStorageCore::set_hardstate` (storage.rs:182-184) -/
 def setHardState (s : MemStorage) (hs : HardState) : MemStorage := { s with hardState := hs }
 
+/-- `MemStorageCore::set_conf_state` (storage.rs:214-216) -/
 def setConfState (s : MemStorage) (cs : ConfState) : MemStorage := { s with confState := cs }
 
-/-- `MemStorageCore::commit_to` -/
+/-- `MemStorageCore::commit_to` (storage.rs:201-211) -/
 def commitTo (s : MemStorage) (index : Nat) : Res MemStorage :=
   if !s.hasEntryAt index then .panic "storage.commit_to.assert"
   else match s.entries.head? with
@@ -58,7 +72,8 @@ def commitTo (s : MemStorage) (index : Nat) : Res MemStorage :=
         | none => .panic "storage.commit_to.index"
         | some e => .ok { s with hardState := { s.hardState with commit := index, term := e.term } }
 
-/-- `MemStorageCore::apply_snapshot` -/
+/-- `MemStorageCore::apply_snapshot` (storage.rs:242-259); `Err` is returned before anything is
+written -/
 def applySnapshot (s : MemStorage) (snap : Snapshot) : Res MemStorage :=
   let md := snap.metadata
   if md.index < s.firstIndex then .err .snapshotOutOfDate
@@ -68,7 +83,7 @@ def applySnapshot (s : MemStorage) (snap : Snapshot) : Res MemStorage :=
     entries := [],
     confState := md.confState }
 
-/-- `MemStorageCore::snapshot` (private) -/
+/-- `MemStorageCore::snapshot` (private, storage.rs:261-285) -/
 def snapshotCore (s : MemStorage) : Res Snapshot :=
   let idx := s.hardState.commit
   if idx = s.snapshotMetadata.index then
@@ -83,7 +98,7 @@ def snapshotCore (s : MemStorage) : Res Snapshot :=
         | some e => .ok { data := [], metadata := { index := idx, term := e.term, confState := s.confState } }
   else .panic "storage.snapshot.commit_lt_snapshot"
 
-/-- `MemStorageCore::compact` -/
+/-- `MemStorageCore::compact` (storage.rs:294-313) -/
 def compact (s : MemStorage) (compactIndex : Nat) : Res MemStorage :=
   if compactIndex ≤ s.firstIndex then .ok s
   else if s.lastIndex + 1 < compactIndex then .panic "storage.compact.not_received"
@@ -94,7 +109,7 @@ def compact (s : MemStorage) (compactIndex : Nat) : Res MemStorage :=
       else if s.entries.length < compactIndex - e0.index then .panic "storage.compact.drain"
       else .ok { s with entries := s.entries.drop (compactIndex - e0.index) }
 
-/-- `MemStorageCore::append` -/
+/-- `MemStorageCore::append` (storage.rs:321-345) -/
 def append (s : MemStorage) (ents : List Entry) : Res MemStorage :=
   match ents with
   | [] => .ok s
@@ -106,7 +121,7 @@ def append (s : MemStorage) (ents : List Entry) : Res MemStorage :=
       if s.entries.length < diff then .panic "storage.append.drain"
       else .ok { s with entries := s.entries.take diff ++ ents }
 
-/-- `Storage::entries` for `MemStorage`; `canAsync` is `context.can_async()` -/
+/-- `Storage::entries` for `MemStorage` (storage.rs:443-475); `canAsync` is `context.can_async()` -/
 def entriesQ (s : MemStorage) (low high : Nat) (maxSize : Option Nat) (canAsync : Bool) :
     Res (List Entry) :=
   if low < s.firstIndex then .err .compacted
@@ -121,7 +136,7 @@ def entriesQ (s : MemStorage) (low high : Nat) (maxSize : Option Nat) (canAsync 
       else if s.entries.length < high - e0.index then .panic "storage.entries.slice_end"
       else .ok (limitSize ((s.entries.drop (low - e0.index)).take (high - low)) maxSize)
 
-/-- `Storage::term` for `MemStorage` -/
+/-- `Storage::term` for `MemStorage` (storage.rs:478-493) -/
 def term (s : MemStorage) (idx : Nat) : Res Nat :=
   if idx = s.snapshotMetadata.index then .ok s.snapshotMetadata.term
   else if idx < s.firstIndex then .err .compacted
@@ -130,7 +145,8 @@ def term (s : MemStorage) (idx : Nat) : Res Nat :=
     | none => .panic "storage.term.index"
     | some e => .ok e.term
 
-/-- `Storage::snapshot` for `MemStorage` (returns the new storage because the trigger is consumed) -/
+/-- `Storage::snapshot` for `MemStorage` (storage.rs:506-518; returns the new storage because the
+trigger is consumed) -/
 def snapshot (s : MemStorage) (requestIndex : Nat) : MemStorage × Res Snapshot :=
   if s.triggerSnapUnavailable then
     ({ s with triggerSnapUnavailable := false }, .err .snapshotTemporarilyUnavailable)
@@ -141,5 +157,50 @@ def snapshot (s : MemStorage) (requestIndex : Nat) : MemStorage × Res Snapshot 
     | .err e => (s, .err e)
     | .panic p => (s, .panic p)
 
+/-- `MemStorageCore::trigger_snap_unavailable` (storage.rs:357-359) -/
+def triggerSnapUnavailableOn (s : MemStorage) : MemStorage := { s with triggerSnapUnavailable := true }
+
+/-- `MemStorageCore::trigger_log_unavailable` (storage.rs:362-364) -/
+def setTriggerLogUnavailable (s : MemStorage) (v : Bool) : MemStorage :=
+  { s with triggerLogUnavailable := v }
+
+/-- `Storage::initial_state` (storage.rs:438-440) -/
+def initialState (s : MemStorage) : HardState × ConfState := (s.hardState, s.confState)
+
 end MemStorage
+
+/-- The state-changing calls of `MemStorage` (those of `MemStorageCore` plus `Storage::snapshot`,
+which consumes the `trigger_snap_unavailable` flag), as driven by the correspondence check and
+quantified over by the C19 theorems. -/
+inductive StorageOp where
+  | setHardState (hs : HardState)
+  | setConfState (cs : ConfState)
+  | commitTo (index : Nat)
+  | applySnapshot (snap : Snapshot)
+  | compact (compactIndex : Nat)
+  | append (ents : List Entry)
+  | triggerSnapUnavailable
+  | triggerLogUnavailable (v : Bool)
+  | snapshot (requestIndex : Nat)
+  deriving Repr, DecidableEq
+
+/-- one call; an `Err` outcome leaves the storage as it was (`apply_snapshot` returns
+`SnapshotOutOfDate` before writing anything, storage.rs:246-248), a panic ends the history -/
+def MemStorage.step (s : MemStorage) : StorageOp → Res MemStorage
+  | .setHardState hs => .ok (s.setHardState hs)
+  | .setConfState cs => .ok (s.setConfState cs)
+  | .commitTo i => s.commitTo i
+  | .applySnapshot snap =>
+    (match s.applySnapshot snap with
+      | .err _ => .ok s
+      | r => r)
+  | .compact ci => s.compact ci
+  | .append ents => s.append ents
+  | .triggerSnapUnavailable => .ok s.triggerSnapUnavailableOn
+  | .triggerLogUnavailable v => .ok (s.setTriggerLogUnavailable v)
+  | .snapshot req =>
+    (match (s.snapshot req).2 with
+      | .panic p => .panic p
+      | _ => .ok (s.snapshot req).1)
+
 end RaftModel
